@@ -165,6 +165,10 @@ def main(tier='quick'):
                 ms = [(rng.choice(pend), rng.choice([0, 10, 100])) for _ in range(nm)] + [(fin, rng.choice([0, 10]))]
                 tr, extra = K.run_find_scp(rng, pol, rng.choice(K.MIDS), 1, ms, bool(nm % 2), rng.choice([16384, 64]))
                 add(tr, extra, {'svc': 'qr_find_scp', 'policy': str(pol), 'statuses': [m[0] for m in ms], 'final_status_from_application': fin})
+                # ... and with no identifier at all (None) next to its final status (F44)
+                ms = ms[:-1] + [(fin, None)]
+                tr, extra = K.run_find_scp(rng, pol, rng.choice(K.MIDS), 1, ms, bool(nm % 2), rng.choice([16384, 64]))
+                add(tr, extra, {'svc': 'qr_find_scp', 'policy': str(pol), 'statuses': [m[0] for m in ms], 'final_status_from_application': fin, 'identifier': None})
         for fa in (0, 1, 3):
             ms = [(rng.choice(pend), 10)] * 4
             tr, extra = K.run_find_scp(rng, pol, rng.choice(K.MIDS), 1, ms, False, 16384, fail_after=fa)
